@@ -54,6 +54,11 @@ theorem wp_loraRxReadPayload (h : Handle) (c : Chip) (bus : List BusEv) (cbs : L
     show (0x10 % 128) = 0x10 from rfl, peek_lora _ _ hl (show inPage 0x13 = true by decide),
     peek_lora _ _ hl (show inPage 0x10 = true by decide), be32_single, writeN_one,
     write_lora _ 0x0d _ hl (by decide) (by decide) (by decide)]
+  rw [wp_ite, if_neg (by omega)]
+  simp only [wp_bind, wp_modH, wp_rread, wp_swrite, wp_getH, hm,
+    readN_one _ 0x10 (by decide), show (0x10 % 128) = 0x10 from rfl,
+    peek_lora _ _ hl (show inPage 0x10 = true by decide), be32_single, writeN_one,
+    write_lora _ 0x0d _ hl (by decide) (by decide) (by decide)]
   rw [wp_ite, if_pos (by omega), wp_bind, wp_bread]
   rw [readN_fifo_lora _ (by exact hl) wf1]
   simp only [rd_wr_same _ _ _ hlen0d, wr_wr_same]
